@@ -39,6 +39,23 @@ theorem step_exs_length_other (c : Conn α) (l : Label α) (hl : l.opens = false
         · rfl
   | «end» => rfl
   | evict _ _ => rfl
+  | wroute msg ctx ctxNew =>
+    show (wrouteR c msg ctx ctxNew).1.exs.length = c.exs.length
+    unfold wrouteR
+    split
+    · rfl
+    · split
+      · simp
+      · split <;> simp
+  | wdeliver i =>
+    show (wdeliverR c i).1.exs.length = c.exs.length
+    unfold wdeliverR
+    split
+    · rfl
+    · split
+      · simp only [writeTo, wDeliver]
+        rw [(deliver_exRel _ _ _ _ _ _).1]
+      · simp [orphanWrite]
 
 /-! ### POST -/
 
@@ -283,5 +300,7 @@ theorem recFacts_step {c : Conn α} (hw : Inv c) (h8 : Inv08 c) (hst : c.cfg.has
     | sclose _ _ => exact absurd rfl hop
     | «end» => exact absurd rfl hop
     | evict _ _ => exact absurd rfl hop
+    | wroute _ _ _ => exact absurd rfl hop
+    | wdeliver _ => exact absurd rfl hop
 
 end Resume
